@@ -90,6 +90,7 @@ def run_history(case, fresh=False, workers=None):
     name = "c4"
     with core.scratch("xv-c04-") as root:
         fn = crops.record(kind, None)
+        sown = []
         ckw = {}
         if case.get("ctor_shuffle") is not None:
             ckw["shuffle"] = case["ctor_shuffle"]
@@ -99,8 +100,9 @@ def run_history(case, fresh=False, workers=None):
             (ckw if case["batch_where"] == "ctor" else skw)[bspec[0]] = \
                 bspec[1]
 
-        def sow():
+        def sow(fn=fn):
             crop = x.Crop(fn=fn, name=name, parent_dir=root, **ckw)
+            sown.append(crop)
             if case["input"] == "grid":
                 combos = {a: list(v) for a, v in case["args"]}
                 if case.get("sow_shuffle") is not None:
@@ -209,6 +211,31 @@ def run_history(case, fresh=False, workers=None):
                           _diff(got["res"], direct))
         require(not os.path.exists(crops.crop_dir(root, name)),
                 "crop-left-behind", "complete reap did not clean up")
+        if workers:
+            # a second sweep under the same name and directory with ANOTHER
+            # function, grown by the same pool of worker processes
+            kind2 = "str" if kind != "str" else "int"
+            fn2 = crops.record(kind2, None)
+            with under_test("second sweep at the same location"):
+                sow(fn2)
+                sown[-1].grow_missing(num_workers=workers)
+                got2 = sown[-1].reap()
+                if case["input"] == "grid":
+                    direct2 = x.combo_runner(
+                        fn2, {a: list(v) for a, v in
+                              sorted(case["args"], key=lambda av: av[0])},
+                        constants=consts or None, verbosity=0)
+                else:
+                    cs = case["cases"]
+                    sub = case.get("subgrid") or []
+                    direct2 = x.combo_runner(
+                        fn2, {a: list(v) for a, v in sub} or None,
+                        cases=[dict(zip(cs["args"], c))
+                               for c in cs["cases"]],
+                        constants=consts or None, verbosity=0)
+            if not models.deep_eq(got2, direct2):
+                core.violated("second-sweep-differs-from-direct-run",
+                              _diff(got2, direct2))
 
     N = n_settings(case)
     shuffled = bool(case.get("ctor_shuffle")) or bool(case.get("sow_shuffle"))
